@@ -474,4 +474,41 @@ Proof.
   rewrite map_map. apply map_ext. intros p. cbn [fst snd]. rewrite Z.sub_0_r. reflexivity.
 Qed.
 
+(* ---- dropping adjacent duplicates of the sorted keys (np.unique) = the chunk keys (E5) ------------- *)
+Notation dad := (Group.drop_adjacent_dups (keqb kle)).
+
+Lemma dad_cons2 x y t : dad (x :: y :: t) = if keqb kle x y then dad (y :: t) else x :: dad (y :: t).
+Proof. reflexivity. Qed.
+
+Lemma dad_run k (vs:list V) rest : vs <> [] ->
+  (match rest with [] => True | k' :: _ => k <> k' end) ->
+  dad (map (fun _ => k) vs ++ rest) = k :: dad rest.
+Proof.
+  intros Hne Hrest. induction vs as [|v vs IH]; [congruence|].
+  destruct vs as [|v' vs'].
+  - cbn [map app]. destruct rest as [|k' rest']; [reflexivity|].
+    rewrite dad_cons2. destruct (keqb kle k k') eqn:E; [apply keqb_true in E; congruence|reflexivity].
+  - change (map (fun _:V => k) (v :: v' :: vs') ++ rest) with (k :: k :: (map (fun _:V => k) vs' ++ rest)).
+    rewrite dad_cons2, keqb_refl. apply IH. congruence.
+Qed.
+
+Theorem dedup_chunks C : wf_chunks C -> dad (ckeys C) = map fst C.
+Proof.
+  intros [Hn Hs]. induction C as [|[k vs] t IH]; [reflexivity|].
+  inversion Hn as [|c0 t0 Hvs Hnt]; subst. cbn [snd] in Hvs.
+  cbn [map fst] in Hs. inversion Hs as [|k0 l0 Hst Hkt]; subst.
+  rewrite ckeys_cons, dad_run.
+  - cbn [map fst]. f_equal. apply IH; assumption.
+  - exact Hvs.
+  - destruct t as [|[k' vs'] t']; [exact I|]. inversion Hnt as [|c1 t1 Hvs' _]; subst. cbn [snd] in Hvs'.
+    destruct (ckeys_head k' vs' t' Hvs') as [rest ->]. apply klt_neq.
+    rewrite Forall_forall in Hkt. apply Hkt. left. reflexivity.
+Qed.
+
+Theorem sorted_keys_dedup P : dad (map fst (ksort P)) = groups_by kle (map fst P).
+Proof.
+  rewrite ksort_expand. fold (ckeys (csort P)). rewrite dedup_chunks by apply csort_wf.
+  rewrite csort_groups, map_map. cbn [fst]. apply map_id.
+Qed.
+
 End Core.
